@@ -829,6 +829,32 @@ def np_append(it, a, v):
 
 
 def np_insert(it, a, idx, v):
+    if isinstance(idx, (list, tuple, NDArr)):
+        # numpy: every index refers to a position of the ORIGINAL array; the value is inserted before it (stable for equal indices)
+        arr = _arr(it, a)
+        if arr.ndim != 1:
+            raise SymError("insert ndim")
+        ids = [it.concrete_int(i) for i in _arr(it, idx).data]
+        n = len(arr.data)
+        vals = _arr(it, v).data if isinstance(v, (list, tuple, NDArr)) else [v] * len(ids)
+        if len(vals) != len(ids):
+            vals = [vals[0]] * len(ids) if len(vals) == 1 else None
+        if vals is None:
+            raise SymError("np.insert values/indices shapes")
+        norm = []
+        for i in ids:
+            if i < -n or i > n:
+                raise _I().IRaise(IndexError(f"index {i} is out of bounds for axis 0 with size {n}"))
+            norm.append(i + n if i < 0 else i)
+        out = []
+        order = sorted(range(len(norm)), key=lambda k: norm[k])
+        pos = 0
+        for k in order:
+            out.extend(arr.data[pos:norm[k]])
+            pos = max(pos, norm[k])
+            out.append(vals[k])
+        out.extend(arr.data[pos:])
+        return NDArr(out, (len(out),), arr.dtype)
     return npm.insert(_arr(it, a), it.concrete_int(idx), v)
 
 
